@@ -472,8 +472,8 @@ func (c *Ctx) c12Helpers(f *ircFacts) {
 		return
 	}
 	allowed := map[string]string{
-		"ircserver.(*IRCServer).send":  "allocates the empty recipient set",
-		"api.outputToRobustMessages":   "copies the stored recipient set verbatim",
+		"ircserver.(*IRCServer).send": "allocates the empty recipient set",
+		"api.outputToRobustMessages":  "copies the stored recipient set verbatim",
 	}
 	for _, w := range c.writersOf(ifor) {
 		ok := w.Obj != nil && f.sendHelpers[w.Obj]
